@@ -87,4 +87,10 @@ CLAIMED = {
   "text": "For all field values at once: the three basic-header forms, per-type field inheritance with 31-bit timestamps, extended timestamp consumption, and the three rejection rules (decided before any further read) match RTMP 5.3.1; every parser-state field that is tested is assigned. The absolute-vs-delta extended timestamp on type-1/2 headers is a recorded known finding. Interleavings and long traces are not enumerated.",
   "note": "Trusts io/binary models and my transcription of RTMP 5.3.1.",
  },
+
+ "C13": {
+  "technique": "bit-provenance abstract interpretation of both frame writers over symbolic payload lengths (role x length form x FIN x RSV1 x opcode variants; masking and the transport stubbed by contracts), store/guard rules for fragment sequencing, constant and call-sequence rules for the handshake",
+  "text": "For all payload lengths at once and every role/length-form/FIN/compression/opcode combination: the bytes handed to the transport are exactly the RFC 6455 frame header (correct length form and length value, mask bit and key iff client) followed by the payload; invalid control frames never reach the transport; fragment sequencing state is reset as required; accept key and handshake tests present. Payload integrity through the buffering/compression layers is not decided.",
+  "note": "maskBytes (unsafe word-wise XOR) and net.Conn are contracts; layout transcribed from RFC 6455 5.2.",
+ },
 }
